@@ -326,4 +326,40 @@ def Diagram.caps (left right : Ty) : Except Err Diagram :=
   if left.r ≠ right ∧ right.r ≠ left then .error .axiom
   else cupsLoop left right true left.length 0 (Diagram.id (left ++ right))
 
+/-! ### Transposes, rigid.py:252-279 -/
+
+/-- `a @ b @ c` of three results. -/
+def tensor3 (a b c : Except Err Diagram) : Except Err Diagram :=
+  match a, b, c with
+  | .ok x, .ok y, .ok z => match x.tensor y with
+    | .error e => .error e
+    | .ok xy => xy.tensor z
+  | .error e, _, _ => .error e
+  | _, .error e, _ => .error e
+  | _, _, .error e => .error e
+
+def then3 (a b c : Except Err Diagram) : Except Err Diagram :=
+  match a, b, c with
+  | .ok x, .ok y, .ok z => match x.then y with
+    | .error e => .error e
+    | .ok xy => xy.then z
+  | .error e, _, _ => .error e
+  | _, .error e, _ => .error e
+  | _, _, .error e => .error e
+
+/-- `d.transpose(left)`:
+    left:  Id(cod.l) @ caps(dom, dom.l) >> Id(cod.l) @ d @ Id(dom.l) >> cups(cod.l, cod) @ Id(dom.l)
+    right: caps(dom.r, dom) @ Id(cod.r) >> Id(dom.r) @ d @ Id(cod.r) >> Id(dom.r) @ cups(cod, cod.r) -/
+def Diagram.transpose (d : Diagram) (left : Bool) : Except Err Diagram :=
+  if left then
+    then3
+      (tensor3 (.ok (Diagram.id (Ty.l d.cod))) (Diagram.caps d.dom (Ty.l d.dom)) (.ok (Diagram.id [])))
+      (tensor3 (.ok (Diagram.id (Ty.l d.cod))) (.ok d) (.ok (Diagram.id (Ty.l d.dom))))
+      (tensor3 (Diagram.cups (Ty.l d.cod) d.cod) (.ok (Diagram.id (Ty.l d.dom))) (.ok (Diagram.id [])))
+  else
+    then3
+      (tensor3 (Diagram.caps (Ty.r d.dom) d.dom) (.ok (Diagram.id (Ty.r d.cod))) (.ok (Diagram.id [])))
+      (tensor3 (.ok (Diagram.id (Ty.r d.dom))) (.ok d) (.ok (Diagram.id (Ty.r d.cod))))
+      (tensor3 (.ok (Diagram.id (Ty.r d.dom))) (Diagram.cups d.cod (Ty.r d.cod)) (.ok (Diagram.id [])))
+
 end DV
